@@ -184,7 +184,10 @@ TracebackLabels(tag, res, chain, tb) ==
 \* set_value / clear_at of element n (accepted): exactly the dependents go
 ValueEditLabels(tag, DD, D2, isSet, n, pre, dl, fx, recalc, taint) ==
     LET P == DOMAIN pre
-        gone == {x \in P : x # n /\ ~IsInput(DD, x) /\ n \in DepsStar(DD, x)}
+        \* (clearing an element that holds nothing -- never computed, or of an uncached
+        \*  cells -- changes nothing)
+        gone == IF ~isSet /\ n \notin P THEN {}
+                ELSE {x \in P : x # n /\ ~IsInput(DD, x) /\ n \in DepsStar(DD, x)}
         \* what tainted values depended on when they were computed is not
         \* recoverable from the current definitions: they may stay or go
         free == taint
